@@ -146,7 +146,7 @@ def run_history(args):
             cur2 = [p for _, a, p, _ in l2 if a == '%']
             if attempt.startswith(b'q') or b'elsewhere' in attempt:
                 if not alive:
-                    bad.append(('quit-discards', 'after %s: :q exited although %s differ(s) from disk' % ([c.decode() for c, _ in prefix], sorted(differs)), wit))
+                    bad.append(('quit-discards', 'after %s: :%s exited although %s differ(s) from disk' % ([c.decode() for c, _ in prefix], attempt.decode(), sorted(differs)), wit))
                     return bad, checks, dirty_prefixes, None
                 if cur2 and cur2[0] not in differs and not dict((p, st) for _, _, p, st in l2).get(cur2[0]):
                     bad.append(('quit-not-on-dirty-buffer', 'after refused :q the current buffer %s is not a dirty one (%s)' % (cur2, sorted(differs)), wit))
